@@ -326,11 +326,12 @@ def grid_trait_instrs():
             for cp in COUNTERPARTS:
                 errs = ERRORS if is_fallible(name) else [None]
                 for err in errs:
-                    args = cp if err is None else '%s, %s' % (cp, err)
+                    ty, _, h = cp.partition(' as ')
+                    ta = trait_attr(name, ty, (' as ' + h) if h else '', err or 'Er')     # carries .cp / .hint / .err for the header oracle
                     if kind == 'struct':
-                        it = Item('struct', 'S', 'named', '', [Attr(name, args)], [Field('a', 'i32'), Field('b', 'i16')])
+                        it = Item('struct', 'S', 'named', '', [ta], [Field('a', 'i32'), Field('b', 'i16')])
                     else:
-                        it = Item('enum', 'E', 'named', '', [Attr(name, args)], [Variant('V'), Variant('W', 'tuple', [Field(None, 'i32')])])
+                        it = Item('enum', 'E', 'named', '', [ta], [Variant('V'), Variant('W', 'tuple', [Field(None, 'i32')])])
                     it.meta = {'grid': 'trait_instr', 'kind': kind, 'instr': name, 'counterpart': cp, 'err': err}
                     out.append(it)
     return out
@@ -975,6 +976,13 @@ def _c03_hinted_case(rng, i, kinds):
                     ghosts.append('%s@%s: { gv%d() }' % ('.'.join(kp), gname, g))
 
     container([], root_named, 0)
+    if named and rng.random() < 0.35:
+        # the fields of a named flat struct in any order: the members of one container then interleave with the others, and the
+        # position of a positional member is its rank among the members of ITS container
+        order = list(range(len(fields)))
+        rng.shuffle(order)
+        fields[:] = [fields[i] for i in order]
+        flat[:] = [flat[i] for i in order]
     tnames = rng.sample(kinds, rng.choice([1, 2]))
     attrs = [trait_attr(tn, 'A', root_hint) for tn in tnames]
     attrs.append(Attr('child_parents', ', '.join('%s: %s%s' % e for e in entries)))
@@ -2730,7 +2738,7 @@ def c09_cases(rng, n):
     for i in range(n):
         strs = rng.random() < 0.25
         if strs:
-            cps = ['StrT']
+            cps = [rng.choice(['StrT', 'StrT', 'String'])]      # a counterpart that is spelled like a std type stays the user's name
         else:
             cps = rng.sample(['i32', 'u8', 'i64'], 2 if rng.random() < 0.45 else 1)
         attrs = []
@@ -2848,13 +2856,16 @@ def c11_cases(rng, n):
         names = ["'%s" % l for l in lts] + [t[1][0] for t in rest]
         cps = []
         for cpn in rng.sample(['A', 'B', 'x::C'], rng.choice([1, 1, 2])):
-            pool = ["'%s" % l for l in lts] + ["'x", "'y"]
+            pool = ["'%s" % l for l in lts] + ["'x", "'y", "'static", "'_"]
             args = []
             for _ in range(rng.choice([0, 0, 1, 2, 2])):
                 args.append(rng.choice(pool))
             if rng.random() < 0.2 and args:
                 args.append(args[0])                      # the same lifetime twice
             targs = [t[0] for t in tys if rng.random() < 0.5] + (['u8'] if rng.random() < 0.2 else [])
+            if rng.random() < 0.12:
+                # a lifetime nested inside a type argument of the counterpart path (finding F-11e: not declared on the impl)
+                targs.append(rng.choice(["&'x str", "Cow<'y, str>", "&'x [u8]", "Box<dyn It<Item = &'x u8> + 'y>"]))
             allargs = args + targs
             cps.append(cpn + (('<%s>' % ', '.join(allargs)) if allargs else ''))
         attrs = []
@@ -2900,6 +2911,10 @@ def c17_enum_existing(rng, n):
         out.append(Item('enum', 'E', 'named', '', [trait_attr(nm, 'D', '', 'Er')], [Variant('A'), Variant('B', 'tuple', [Field(None, 'i32')])], {'gen': 'c17_enum_existing'}))
         out.append(Item('struct', 'S', 'named', '', [trait_attr(rng.choice(['owned_into', 'into', 'try_into']), 'D', '', 'Er', 'return mk(@)')],
                         [Field('a', 'i32'), Field('p', 'P', [Attr('parent')])], {'gen': 'c17_qret_parent'}))
+        # a bare #[parent] (assignment-style body) together with a flattened #[child] member
+        out.append(Item('struct', 'S', 'named', '', [trait_attr(rng.choice(['owned_into', 'ref_into', 'into', 'try_into', 'into_existing']), 'D', '', 'Er'),
+                                                     Attr('child_parents', rng.choice(['base: Base', 'base: Base, base.inner: Inner']))],
+                        [Field('a', 'i32'), Field('c', 'i32', [Attr('child', 'base')]), Field('p', 'P', [Attr('parent')])], {'gen': 'c17_parent_child'}))
     return out
 
 
